@@ -59,6 +59,7 @@ var properties = map[string][]harnessSpec{
 		{Name: "play.VerifC01WriteSequence", Quick: map[string]int{"C01.maxInstances": 2}, Thorough: map[string]int{"C01.maxInstances": 3}, Marks: end},
 		{Name: "play.VerifC07SettingsStep", Marks: end},
 		{Name: "play.VerifC07Texts", Quick: map[string]int{"C07.maxText": 3}, Thorough: map[string]int{"C07.maxText": 6}, Marks: end},
+		{Name: "play.VerifC05MetaEcho", Marks: end},
 		{Name: "play.VerifC07Dynamics", Marks: end},
 		{Name: "midix.VerifC08File", Quick: map[string]int{"C08.maxOps": 2, "C08.maxTracks": 2, "C08.maxKeys": 1}, Thorough: map[string]int{"C08.maxOps": 2, "C08.maxTracks": 2, "C08.maxKeys": 2}, Marks: end},
 		{Name: "cmd.VerifC01FlagOverride", Marks: end},
@@ -105,6 +106,7 @@ var properties = map[string][]harnessSpec{
 	"C16": {
 		{Name: "chord.VerifC16LookupHistory", Quick: map[string]int{"C16.history": 2}, Thorough: map[string]int{"C16.history": 3}, Marks: end},
 		{Name: "cmd.VerifC16ChordFiles", Marks: end},
+		{Name: "cmd.VerifC16AttrFiles", Marks: end},
 		{Name: "chord.VerifC16Builtins", Marks: end},
 		{Name: "chord.VerifC16AttrNames", Marks: end},
 		{Name: "chord.VerifC16UserDict", Quick: map[string]int{"C16.maxUser": 2}, Thorough: map[string]int{"C16.maxUser": 3}, Marks: []string{"end", "rejected", "accepted"}, MustTerminate: true},
@@ -114,6 +116,7 @@ var properties = map[string][]harnessSpec{
 		{Name: "astconv.VerifC05KeyChange", Marks: []string{"end", "carrier-rejected"}},
 		{Name: "astconv.VerifC05Classifier", Quick: map[string]int{"C05.maxChords": 2, "C05.preemptions": 1}, Thorough: map[string]int{"C05.maxChords": 2, "C05.preemptions": 2}, Marks: []string{"end", "classified", "refused"}},
 		{Name: "play.VerifC05Transpose", Quick: map[string]int{"C05.maxDegree": 9}, Thorough: map[string]int{"C05.maxDegree": 12}, Marks: []string{"end", "rejected"}},
+		{Name: "play.VerifC05MetaEcho", Marks: []string{"end"}},
 	},
 	"C11": {
 		{Name: "input/ast.VerifC11Trivia", Quick: map[string]int{"C11.window": 3}, Thorough: map[string]int{"C11.window": 4}, Marks: end, MustTerminate: true},
